@@ -38,7 +38,7 @@ type Report struct {
 
 func NewReport() *Report {
 	return &Report{Cover: map[string]map[string]int{}, DontCare: map[string]map[string]int{}, Count: map[string]map[string]int{},
-		Samples: map[string][]string{}, MaxViol: 200}
+		Samples: map[string][]string{}, MaxViol: 60}
 }
 
 func bump(m map[string]map[string]int, p, k string) {
@@ -61,7 +61,8 @@ func (r *Report) Sample(p, s string) {
 
 func (r *Report) Violate(p, key, format string, args ...interface{}) {
 	bump(r.Count, p, "violations")
-	if len(r.Violations) >= r.MaxViol {
+	// the cap is per property: a flood of violations of one property must not hide another's
+	if r.Count[p]["violations"] > r.MaxViol {
 		return
 	}
 	r.Violations = append(r.Violations, Violation{Prop: p, Key: key, Msg: fmt.Sprintf(format, args...), Case: r.caseID, Scan: r.scanNo})
@@ -151,6 +152,9 @@ type ScanCtx struct {
 	Groups []*GroupCtx
 	// Exact: fault-free, fresh view, no crash/panic: exact-count oracles apply
 	Exact bool
+	// UpExact: the only injected failures hit the removal calls (cloud terminate, Node delete): what the scan
+	// needs and how it must split it between untainting and the cloud is still exactly known
+	UpExact   bool
 	PostFault bool
 }
 
@@ -193,6 +197,13 @@ func BaseCfg(env *sim.Env, gi int) *oracle.Cfg {
 func (h *History) Observe(rec *sim.ScanRecord) *ScanCtx {
 	sc := &ScanCtx{Rec: rec}
 	sc.Exact = rec.FaultHits == 0 && !rec.Stale && !rec.Crashed && rec.Panic == nil && !rec.Fatal
+	sc.UpExact = !rec.Stale && !rec.Crashed && rec.Panic == nil && !rec.Fatal
+	for _, e := range rec.Events {
+		if e.Injected && ((e.API != sim.AwsTermASG && e.API != sim.K8sDelete) || e.Applied) {
+			// (a lost reply - the call took effect but reported failure - leaves escalator with a wrong picture of the cloud)
+			sc.UpExact = false
+		}
+	}
 	nodes, pods := rec.View.PristineNodes(), rec.View.PristinePods()
 
 	// a new controller lifetime forgets lock and cached node size
